@@ -119,7 +119,82 @@ theorem lagCoeff_val (hq : 0 < q) (parties : List Nat) (hp : GoodParties q parti
     ∃ l, lagCoeff q parties jt = some l ∧ 0 ≤ l ∧ l < q ∧
       ((l : Int) : ZMod q.natAbs) =
         ((parties.filter (· ≠ jt)).map (fun lt => pt q lt / (pt q lt - pt q jt))).prod := by
-  sorry
+  have hnum := foldl_filter_prod (q := q) (fun lt => (lt : Int) + 1) jt parties 1
+  have hden := foldl_filter_prod (q := q) (fun lt => ((lt : Int) + 1) - ((jt : Int) + 1)) jt parties 1
+  have e1 : (fun lt : Nat => ((((lt : Int) + 1 : Int)) : ZMod q.natAbs)) = fun lt => pt q lt := by
+    funext lt; rw [pt_cast]
+  have e2 : (fun lt : Nat => (((((lt : Int) + 1) - ((jt : Int) + 1) : Int)) : ZMod q.natAbs)) =
+      fun lt => pt q lt - pt q jt := by
+    funext lt; rw [pt_cast, pt_cast]; push_cast; ring
+  beta_reduce at hnum hden
+  rw [e1, Int.cast_one, one_mul] at hnum
+  rw [e2, Int.cast_one, one_mul] at hden
+  have hden0 : ((parties.foldl (fun acc lt =>
+      if lt ≠ jt then acc * (((lt : Int) + 1) - ((jt : Int) + 1)) else acc) 1 : Int) : ZMod q.natAbs) ≠ 0 := by
+    rw [hden]
+    apply List.prod_ne_zero
+    intro h0
+    rw [List.mem_map] at h0
+    obtain ⟨lt, hlt, h0⟩ := h0
+    rw [List.mem_filter] at hlt
+    have hne : lt ≠ jt := by simpa using hlt.2
+    apply hne
+    exact pt_inj hq (hp.small lt hlt.1) (hp.small jt hj) (sub_eq_zero.mp h0)
+  obtain ⟨i, hi, hi0, hi1, hiv⟩ := invm_val_q hq _ hden0
+  unfold lagCoeff
+  simp only [hi]
+  refine ⟨_, rfl, (emod_bounds hq _).1, (emod_bounds hq _).2, ?_⟩
+  rw [cast_emod hq, Int.cast_mul, hiv, hnum, hden, list_prod_map_div, div_eq_mul_inv]
+
+/-- the multiplier of `jt` as a field element -/
+noncomputable def lam (q : Int) [Fact (Nat.Prime q.natAbs)] (parties : List Nat) (jt : Nat) : ZMod q.natAbs :=
+  ((parties.filter (· ≠ jt)).map (fun lt => pt q lt / (pt q lt - pt q jt))).prod
+
+theorem lam_eq_basis (hq : 0 < q) (parties : List Nat) (hp : GoodParties q parties) (jt : Nat) :
+    lam q parties jt = (Lagrange.basis parties.toFinset (pt q) jt).eval 0 := by
+  unfold lam Lagrange.basis
+  rw [Polynomial.eval_prod]
+  have hs : parties.toFinset.erase jt = (parties.filter (· ≠ jt)).toFinset := by
+    ext x; simp [and_comm]
+  rw [hs, List.prod_toFinset _ (hp.nodup.filter _)]
+  congr 1
+  apply List.map_congr_left
+  intro lt hlt
+  unfold Lagrange.basisDivisor
+  simp only [Polynomial.eval_mul, Polynomial.eval_C, Polynomial.eval_sub, Polynomial.eval_X]
+  rw [zero_sub, ← neg_sub (pt q lt) (pt q jt), inv_neg, neg_mul_neg, div_eq_inv_mul]
+
+theorem sum_lam (hq : 0 < q) (parties : List Nat) (hp : GoodParties q parties)
+    (f : Polynomial (ZMod q.natAbs)) (hf : f.degree < parties.length) :
+    (parties.map (fun j => lam q parties j * f.eval (pt q j))).sum = f.eval 0 := by
+  have hcard : parties.toFinset.card = parties.length := List.toFinset_card_of_nodup hp.nodup
+  have hf' : f.degree < (parties.toFinset.card : WithBot ℕ) := by rw [hcard]; exact hf
+  have h := Lagrange.eq_interpolate (pt_injOn hq parties hp) hf'
+  conv_rhs => rw [h]
+  rw [Lagrange.interpolate_apply, Polynomial.eval_finsetSum, ← List.sum_toFinset _ hp.nodup]
+  apply Finset.sum_congr rfl
+  intro j hj
+  rw [lam_eq_basis hq parties hp j, Polynomial.eval_mul, Polynomial.eval_C, mul_comm]
+
+theorem lagrange0Go_val (hq : 0 < q) (parties : List Nat) (hp : GoodParties q parties)
+    (share : Nat → Int) :
+    ∀ (rest : List Nat) (acc : Int), (∀ j ∈ rest, j ∈ parties) → 0 ≤ acc → acc < q →
+    ∃ v, lagrange0Go q parties share rest acc = some v ∧ 0 ≤ v ∧ v < q ∧
+      ((v : Int) : ZMod q.natAbs) = (acc : ZMod q.natAbs) +
+        (rest.map (fun j => lam q parties j * (share j : ZMod q.natAbs))).sum := by
+  intro rest
+  induction rest with
+  | nil => intro acc _ h0 h1; exact ⟨acc, rfl, h0, h1, by simp⟩
+  | cons jt rest ih =>
+    intro acc hsub h0 h1
+    obtain ⟨l, hl, hl0, hl1, hlv⟩ := lagCoeff_val hq parties hp jt (hsub jt List.mem_cons_self)
+    obtain ⟨v, hv, hv0, hv1, hvv⟩ := ih ((acc + (l * share jt) % q) % q)
+      (fun j hj => hsub j (List.mem_cons_of_mem _ hj)) (emod_bounds hq _).1 (emod_bounds hq _).2
+    refine ⟨v, ?_, hv0, hv1, ?_⟩
+    · simp only [lagrange0Go, hl]; exact hv
+    · rw [hvv, cast_emod hq, Int.cast_add, cast_emod hq, Int.cast_mul, hlv]
+      simp only [List.map_cons, List.sum_cons, lam]
+      ring
 
 /-- the reconstruction loop: for shares lying on a polynomial of degree `< |parties|` the result is
     its value at 0 -/
@@ -128,7 +203,14 @@ theorem lagrange0_val (hq : 0 < q) (parties : List Nat) (hp : GoodParties q part
     (hs : ∀ j ∈ parties, ((share j : Int) : ZMod q.natAbs) = f.eval (pt q j)) :
     ∃ v, lagrange0 q parties share = some v ∧ 0 ≤ v ∧ v < q ∧
       ((v : Int) : ZMod q.natAbs) = f.eval 0 := by
-  sorry
+  obtain ⟨v, hv, hv0, hv1, hvv⟩ := lagrange0Go_val hq parties hp share parties 0
+    (fun j hj => hj) le_rfl hq
+  refine ⟨v, hv, hv0, hv1, ?_⟩
+  rw [hvv, Int.cast_zero, zero_add, ← sum_lam hq parties hp f hf]
+  congr 1
+  apply List.map_congr_left
+  intro j hj
+  rw [hs j hj]
 
 /-- any two admissible party sets reconstruct the same value from shares of one polynomial -/
 theorem lagrange0_unique (hq : 0 < q) (P1 P2 : List Nat) (h1 : GoodParties q P1) (h2 : GoodParties q P2)
@@ -137,7 +219,333 @@ theorem lagrange0_unique (hq : 0 < q) (P1 P2 : List Nat) (h1 : GoodParties q P1)
     (hs1 : ∀ j ∈ P1, ((share j : Int) : ZMod q.natAbs) = f.eval (pt q j))
     (hs2 : ∀ j ∈ P2, ((share j : Int) : ZMod q.natAbs) = f.eval (pt q j)) :
     ∃ v, lagrange0 q P1 share = some v ∧ lagrange0 q P2 share = some v := by
-  sorry
+  obtain ⟨v1, hv1, ha1, hb1, hc1⟩ := lagrange0_val hq P1 h1 f hf1 share hs1
+  obtain ⟨v2, hv2, ha2, hb2, hc2⟩ := lagrange0_val hq P2 h2 f hf2 share hs2
+  have : v1 = v2 := eq_of_cast_eq hq ⟨ha1, hb1⟩ ⟨ha2, hb2⟩ (hc1.trans hc2.symm)
+  subst this
+  exact ⟨v1, hv1, hv2⟩
+
+/-! ### `tmcg_interpolate_polynom` -/
+
+theorem getI_map_range (n : Nat) (g : Nat → Int) (i : Nat) :
+    getI ((List.range n).map g) i = if i < n then g i else 0 := by
+  unfold getI
+  by_cases h : i < n
+  · simp [List.getD_eq_getElem?_getD, h]
+  · simp [List.getD_eq_getElem?_getD, h]
+
+theorem getI_set (l : List Int) (k : Nat) (x : Int) (i : Nat) :
+    getI (l.set k x) i = if i = k ∧ k < l.length then x else getI l i := by
+  unfold getI
+  rw [List.getD_eq_getElem?_getD, List.getD_eq_getElem?_getD, List.getElem?_set]
+  by_cases h : k = i
+  · subst h
+    by_cases h2 : k < l.length
+    · simp [h2]
+    · simp [h2]
+  · have : ¬ i = k := fun e => h e.symm
+    simp [h, this]
+
+theorem getI_of_le (l : List Int) (i : Nat) (h : l.length ≤ i) : getI l i = 0 := by
+  unfold getI
+  simp [List.getD_eq_getElem?_getD, h]
+
+theorem getI_replicate (n i : Nat) : getI (List.replicate n (0 : Int)) i = 0 := by
+  unfold getI
+  by_cases h : i < n
+  · simp [List.getD_eq_getElem?_getD, h]
+  · simp [List.getD_eq_getElem?_getD, h]
+
+theorem getI_map {α : Type} (l : List α) (g : α → Int) (i : Nat) (h : i < l.length) :
+    getI (l.map g) i = g l[i] := by
+  unfold getI
+  simp [List.getD_eq_getElem?_getD, h]
+
+theorem hornerDown_cast (hq : 0 < q) (aa : Int) (v : List Int) : ∀ (k : Nat) (t : Int),
+    ((hornerDown q aa v k t : Int) : ZMod q.natAbs) =
+      (t : ZMod q.natAbs) * (aa : ZMod q.natAbs) ^ k +
+        ∑ i ∈ Finset.range k, (getI v i : ZMod q.natAbs) * (aa : ZMod q.natAbs) ^ i := by
+  intro k
+  induction k with
+  | zero => intro t; simp [hornerDown]
+  | succ k ih =>
+    intro t
+    rw [hornerDown, ih, cast_emod hq, Int.cast_add, cast_emod hq, Int.cast_mul,
+      Finset.sum_range_succ]
+    ring
+
+open Polynomial in
+theorem eval_of_degree_lt {F : Type} [Field F] (p : F[X]) (k : Nat) (h : p.degree < k) (x : F) :
+    p.eval x = ∑ i ∈ Finset.range k, p.coeff i * x ^ i := by
+  by_cases hp : p = 0
+  · subst hp; simp
+  · exact Polynomial.eval_eq_sum_range' ((Polynomial.natDegree_lt_iff_degree_lt hp).mpr h) x
+
+open Polynomial in
+theorem eval_nodal_range {F : Type} [Field F] (v : Nat → F) (k : Nat) (x : F) :
+    (Lagrange.nodal (Finset.range k) v).eval x =
+      x ^ k + ∑ i ∈ Finset.range k, (Lagrange.nodal (Finset.range k) v).coeff i * x ^ i := by
+  have hd : (Lagrange.nodal (Finset.range k) v).natDegree = k := by
+    rw [Lagrange.natDegree_nodal, Finset.card_range]
+  have hm : (Lagrange.nodal (Finset.range k) v).coeff k = 1 := by
+    have := (Lagrange.nodal_monic (s := Finset.range k) (v := v)).coeff_natDegree
+    rwa [hd] at this
+  rw [Polynomial.eval_eq_sum_range, hd, Finset.sum_range_succ, hm, one_mul, add_comm]
+
+open Polynomial in
+theorem nodal_succ {F : Type} [Field F] (v : Nat → F) (k : Nat) :
+    Lagrange.nodal (Finset.range (k + 1)) v = (X - C (v k)) * Lagrange.nodal (Finset.range k) v := by
+  rw [Finset.range_add_one, Lagrange.nodal_insert_eq_nodal Finset.notMem_range_self]
+
+open Polynomial in
+theorem eval_nodal_ne_zero {F : Type} [Field F] (v : Nat → F) (k : Nat)
+    (hv : Set.InjOn v (Finset.range (k + 1) : Set Nat)) :
+    (Lagrange.nodal (Finset.range k) v).eval (v k) ≠ 0 := by
+  apply Lagrange.eval_nodal_not_at_node
+  intro i hi h
+  have hi' : i < k := Finset.mem_range.mp hi
+  have := hv (by simp) (by simp; omega) h
+  omega
+
+open Polynomial in
+theorem interp_succ {F : Type} [Field F] (v r : Nat → F) (k : Nat)
+    (hv : Set.InjOn v (Finset.range (k + 1) : Set Nat)) :
+    Lagrange.interpolate (Finset.range (k + 1)) v r =
+      Lagrange.interpolate (Finset.range k) v r +
+        C ((r k - (Lagrange.interpolate (Finset.range k) v r).eval (v k)) /
+            (Lagrange.nodal (Finset.range k) v).eval (v k)) * Lagrange.nodal (Finset.range k) v := by
+  have hvk : Set.InjOn v (Finset.range k : Set Nat) := by
+    intro i hi j hj h
+    exact hv (by simp at hi ⊢; omega) (by simp at hj ⊢; omega) h
+  symm
+  apply Lagrange.eq_interpolate_of_eval_eq r hv
+  · rw [Finset.card_range]
+    have h1 : (Lagrange.interpolate (Finset.range k) v r).degree < ((k + 1 : Nat) : WithBot Nat) := by
+      have := Lagrange.degree_interpolate_lt r hvk
+      rw [Finset.card_range] at this
+      exact lt_trans this (by exact_mod_cast Nat.lt_succ_self k)
+    have h2 : (C ((r k - (Lagrange.interpolate (Finset.range k) v r).eval (v k)) /
+            (Lagrange.nodal (Finset.range k) v).eval (v k)) * Lagrange.nodal (Finset.range k) v).degree
+          < ((k + 1 : Nat) : WithBot Nat) := by
+      refine lt_of_le_of_lt (Polynomial.degree_mul_le _ _) ?_
+      rw [Lagrange.degree_nodal, Finset.card_range]
+      refine lt_of_le_of_lt (add_le_add Polynomial.degree_C_le le_rfl) ?_
+      rw [zero_add]
+      exact_mod_cast Nat.lt_succ_self k
+    exact lt_of_le_of_lt (Polynomial.degree_add_le _ _) (max_lt h1 h2)
+  · intro i hi
+    have hi' : i < k + 1 := Finset.mem_range.mp hi
+    rw [Polynomial.eval_add, Polynomial.eval_mul, Polynomial.eval_C]
+    by_cases hik : i = k
+    · subst hik
+      rw [div_mul_cancel₀ _ (eval_nodal_ne_zero v i hv)]
+      ring
+    · have hlt : i ∈ Finset.range k := Finset.mem_range.mpr (by omega)
+      rw [Lagrange.eval_nodal_at_node hlt, mul_zero, add_zero,
+        Lagrange.eval_interpolate_at_node r hvk hlt]
+
+/-- update of `res` in one round of `interpGo` -/
+theorem res_step (hq : 0 < q) (res prod : List Int) (k m : Nat) (t1' : Int) (hk : k < m)
+    (hlen : res.length = m) (P M : Polynomial (ZMod q.natAbs))
+    (hPk : ∀ i, k ≤ i → P.coeff i = 0) (hMk : M.coeff k = 1) (hMgt : ∀ i, k < i → M.coeff i = 0)
+    (hres : ∀ i, ((getI res i : Int) : ZMod q.natAbs) = P.coeff i)
+    (hprod : ∀ i, i < k → ((getI prod i : Int) : ZMod q.natAbs) = M.coeff i)
+    (hb : ∀ i, 0 ≤ getI res i ∧ getI res i < q) (ht : 0 ≤ t1' ∧ t1' < q) :
+    ((addScaled q t1' k res prod).set k t1').length = m ∧
+    (∀ i, 0 ≤ getI ((addScaled q t1' k res prod).set k t1') i ∧
+      getI ((addScaled q t1' k res prod).set k t1') i < q) ∧
+    ∀ i, ((getI ((addScaled q t1' k res prod).set k t1') i : Int) : ZMod q.natAbs) =
+      P.coeff i + (t1' : ZMod q.natAbs) * M.coeff i := by
+  have hlen' : (addScaled q t1' k res prod).length = m := by simp [addScaled, hlen]
+  have hget : ∀ i, getI ((addScaled q t1' k res prod).set k t1') i =
+      if i = k then t1' else if i < k then (getI res i + getI prod i * t1' % q) % q
+        else getI res i := by
+    intro i
+    rw [getI_set, hlen']
+    by_cases hik : i = k
+    · simp [hik, hk]
+    · simp only [hik, false_and, if_false]
+      unfold addScaled
+      rw [getI_map_range, hlen]
+      by_cases him : i < m
+      · simp [him]
+      · have h1 : ¬ i < k := by omega
+        simp [him, h1, getI_of_le res i (by omega)]
+  refine ⟨by rw [List.length_set, hlen'], ?_, ?_⟩
+  · intro i
+    rw [hget]
+    by_cases hik : i = k
+    · simp only [hik, if_true]; exact ht
+    · by_cases hlt : i < k
+      · simp only [hik, hlt, if_false, if_true]; exact emod_bounds hq _
+      · simp only [hik, hlt, if_false]; exact hb i
+  · intro i
+    rw [hget]
+    by_cases hik : i = k
+    · subst hik
+      simp only [if_true]
+      rw [hPk i le_rfl, hMk, zero_add, mul_one]
+    · by_cases hlt : i < k
+      · simp only [hik, hlt, if_false, if_true]
+        rw [cast_emod hq, Int.cast_add, cast_emod hq, Int.cast_mul, hres, hprod i hlt]
+        ring
+      · simp only [hik, hlt, if_false]
+        rw [hres, hMgt i (by omega), mul_zero, add_zero]
+
+/-- update of `prod` in one round of `interpGo` -/
+theorem prod_step (hq : 0 < q) (prod : List Int) (k m : Nat) (aa : Int) (hk : k < m)
+    (hlen : prod.length = m) (M M' : Polynomial (ZMod q.natAbs))
+    (hM0 : M'.coeff 0 = - (aa : ZMod q.natAbs) * M.coeff 0)
+    (hMs : ∀ i, M'.coeff (i + 1) = M.coeff i - (aa : ZMod q.natAbs) * M.coeff (i + 1))
+    (hMk : M.coeff k = 1)
+    (hprod : ∀ i, i < k → ((getI prod i : Int) : ZMod q.natAbs) = M.coeff i)
+    (h0 : k = 0 → ((getI prod 0 : Int) : ZMod q.natAbs) = (aa : ZMod q.natAbs)) :
+    (updProd q aa k prod).length = m ∧
+    ∀ i, i < k + 1 → ((getI (updProd q aa k prod) i : Int) : ZMod q.natAbs) = M'.coeff i := by
+  unfold updProd
+  by_cases hk0 : k = 0
+  · subst hk0
+    simp only [if_true]
+    refine ⟨by rw [List.length_set, hlen], ?_⟩
+    intro i hi
+    have : i = 0 := by omega
+    subst this
+    rw [getI_set, hlen]
+    simp only [hk, and_self, if_true]
+    rw [Int.cast_neg, h0 rfl, hM0, hMk, mul_one]
+  · simp only [hk0, if_false]
+    refine ⟨by simp [hlen], ?_⟩
+    intro i hi
+    rw [getI_map_range, hlen]
+    have him : i < m := by omega
+    simp only [him, if_true]
+    by_cases hi0 : i = 0
+    · subst hi0
+      simp only [if_true]
+      rw [cast_emod hq, Int.cast_mul, Int.cast_neg, hprod 0 (by omega), hM0]
+      ring
+    · obtain ⟨i', rfl⟩ : ∃ i', i = i' + 1 := ⟨i - 1, by omega⟩
+      simp only [hi0, if_false]
+      by_cases hlt : i' + 1 < k
+      · simp only [hlt, if_true, Nat.add_sub_cancel]
+        rw [cast_emod hq, Int.cast_add, cast_emod hq, Int.cast_mul, Int.cast_neg,
+          hprod _ hlt, hprod i' (by omega), hMs]
+        ring
+      · have hik : i' + 1 = k := by omega
+        subst hik
+        simp only [hlt, if_false, if_true, Nat.add_sub_cancel]
+        rw [cast_emod hq, Int.cast_add, Int.cast_neg, hprod i' (by omega), hMs, hMk]
+        ring
+
+open Polynomial in
+theorem nodal_succ_coeff_zero {F : Type} [Field F] (v : Nat → F) (k : Nat) :
+    (Lagrange.nodal (Finset.range (k + 1)) v).coeff 0 =
+      - v k * (Lagrange.nodal (Finset.range k) v).coeff 0 := by
+  rw [nodal_succ, sub_mul, coeff_sub, coeff_C_mul, Polynomial.coeff_X_mul_zero]; ring
+
+open Polynomial in
+theorem nodal_succ_coeff_succ {F : Type} [Field F] (v : Nat → F) (k i : Nat) :
+    (Lagrange.nodal (Finset.range (k + 1)) v).coeff (i + 1) =
+      (Lagrange.nodal (Finset.range k) v).coeff i -
+        v k * (Lagrange.nodal (Finset.range k) v).coeff (i + 1) := by
+  rw [nodal_succ, sub_mul, coeff_sub, coeff_C_mul, coeff_X_mul]
+
+/-- abscissae / ordinates of the input lists as field elements -/
+abbrev va (q : Int) (a : List Int) (i : Nat) : ZMod q.natAbs := ((getI a i : Int) : ZMod q.natAbs)
+
+/-- the interpolant through the first `k` points -/
+noncomputable abbrev PP (q : Int) [Fact (Nat.Prime q.natAbs)] (a b : List Int) (k : Nat) :
+    Polynomial (ZMod q.natAbs) :=
+  Lagrange.interpolate (Finset.range k) (va q a) (va q b)
+
+/-- `∏_{i<k} (X - a_i)` -/
+noncomputable abbrev MM (q : Int) [Fact (Nat.Prime q.natAbs)] (a : List Int) (k : Nat) :
+    Polynomial (ZMod q.natAbs) :=
+  Lagrange.nodal (Finset.range k) (va q a)
+
+/-- the loop invariant of `interpGo`: entering round `k`, `res` holds the coefficients of the
+    interpolant through the first `k` points and (while another round follows) `prod` the low `k`
+    coefficients of `∏_{i<k} (X - a_i)` -/
+theorem interpGo_inv (hq : 0 < q) (a b : List Int) (m : Nat)
+    (hv : Set.InjOn (va q a) (Finset.range m : Set Nat)) :
+    ∀ (fuel k : Nat) (prod res : List Int), fuel + k = m → prod.length = m → res.length = m →
+      (∀ i, 0 ≤ getI res i ∧ getI res i < q) →
+      (∀ i, ((getI res i : Int) : ZMod q.natAbs) = (PP q a b k).coeff i) →
+      (k < m → ∀ i, i < k → ((getI prod i : Int) : ZMod q.natAbs) = (MM q a k).coeff i) →
+      (k = 0 → ((getI prod 0 : Int) : ZMod q.natAbs) = va q a 0) →
+      ∃ c, interpGo q a b m fuel k prod res = some c ∧ c.length = m ∧
+        (∀ i, 0 ≤ getI c i ∧ getI c i < q) ∧
+        (∀ i, ((getI c i : Int) : ZMod q.natAbs) = (PP q a b m).coeff i) := by
+  intro fuel
+  induction fuel with
+  | zero =>
+    intro k prod res hfk hpl hrl hb hres _ _
+    have : k = m := by omega
+    subst this
+    exact ⟨res, rfl, hrl, hb, hres⟩
+  | succ f ih =>
+    intro k prod res hfk hpl hrl hb hres hprod h0
+    have hkm : k < m := by omega
+    have hvk1 : Set.InjOn (va q a) (Finset.range (k + 1) : Set Nat) := by
+      intro i hi j hj h
+      exact hv (by simp at hi ⊢; omega) (by simp at hj ⊢; omega) h
+    have hvk : Set.InjOn (va q a) (Finset.range k : Set Nat) := by
+      intro i hi j hj h
+      exact hv (by simp at hi ⊢; omega) (by simp at hj ⊢; omega) h
+    have hPdeg : (PP q a b k).degree < (k : WithBot Nat) := by
+      have := Lagrange.degree_interpolate_lt (va q b) hvk
+      rwa [Finset.card_range] at this
+    have hPk : ∀ i, k ≤ i → (PP q a b k).coeff i = 0 := by
+      intro i hi
+      exact Polynomial.coeff_eq_zero_of_degree_lt (lt_of_lt_of_le hPdeg (by exact_mod_cast hi))
+    have hMd : (MM q a k).natDegree = k := by
+      rw [Lagrange.natDegree_nodal, Finset.card_range]
+    have hMk : (MM q a k).coeff k = 1 := by
+      have := (Lagrange.nodal_monic (s := Finset.range k) (v := va q a)).coeff_natDegree
+      rwa [hMd] at this
+    have hMgt : ∀ i, k < i → (MM q a k).coeff i = 0 := by
+      intro i hi
+      exact Polynomial.coeff_eq_zero_of_natDegree_lt (by rw [hMd]; exact hi)
+    have ht1 : ((hornerDown q (getI a k) prod k 1 : Int) : ZMod q.natAbs) =
+        (MM q a k).eval (va q a k) := by
+      rw [hornerDown_cast hq, Int.cast_one, one_mul, eval_nodal_range]
+      congr 1
+      apply Finset.sum_congr rfl
+      intro i hi
+      rw [hprod hkm i (Finset.mem_range.mp hi)]
+    have ht2 : ((hornerDown q (getI a k) res k 0 : Int) : ZMod q.natAbs) =
+        (PP q a b k).eval (va q a k) := by
+      rw [hornerDown_cast hq, Int.cast_zero, zero_mul, zero_add, eval_of_degree_lt _ k hPdeg]
+      apply Finset.sum_congr rfl
+      intro i hi
+      rw [hres i]
+    have hne : ((hornerDown q (getI a k) prod k 1 : Int) : ZMod q.natAbs) ≠ 0 := by
+      rw [ht1]; exact eval_nodal_ne_zero (va q a) k hvk1
+    obtain ⟨t1i, hinv, hi0, hi1, hiv⟩ := invm_val_q hq _ hne
+    simp only [interpGo, hinv]
+    generalize ht1'def : t1i * ((getI b k - hornerDown q (getI a k) res k 0) % q) % q = t1'
+    have hbt : 0 ≤ t1' ∧ t1' < q := by rw [← ht1'def]; exact emod_bounds hq _
+    have ht1' : ((t1' : Int) : ZMod q.natAbs) =
+        (va q b k - (PP q a b k).eval (va q a k)) / (MM q a k).eval (va q a k) := by
+      rw [← ht1'def, cast_emod hq, Int.cast_mul, cast_emod hq, Int.cast_sub, hiv, ht1, ht2,
+        div_eq_inv_mul]
+    obtain ⟨hl', hb', hres'⟩ := res_step hq res prod k m t1' hkm hrl (PP q a b k) (MM q a k)
+      hPk hMk hMgt hres (hprod hkm) hb hbt
+    have hPsucc : ∀ i, (PP q a b (k + 1)).coeff i =
+        (PP q a b k).coeff i + (t1' : ZMod q.natAbs) * (MM q a k).coeff i := by
+      intro i
+      rw [PP, interp_succ (va q a) (va q b) k hvk1, Polynomial.coeff_add, Polynomial.coeff_C_mul,
+        ht1']
+    obtain ⟨hpl', hprod'⟩ := prod_step hq prod k m (getI a k) hkm hpl (MM q a k) (MM q a (k + 1))
+      (nodal_succ_coeff_zero (va q a) k) (nodal_succ_coeff_succ (va q a) k) hMk (hprod hkm)
+      (fun hk0 => by subst hk0; exact h0 rfl)
+    apply ih (k + 1) _ _ (by omega) ?_ hl' hb' (fun i => by rw [hres', hPsucc]) ?_ (by omega)
+    · by_cases hk1 : k + 1 < m
+      · simp only [hk1, if_true]; exact hpl'
+      · simp only [hk1, if_false]; exact hpl
+    · intro hk1 i hi
+      simp only [hk1, if_true]
+      exact hprod' i hi
 
 /-- `tmcg_interpolate_polynom` on the points `(j+1, share j)`: the coefficient list (reduced mod q,
     lowest first, one entry per point) of the polynomial of degree `< |parties|` through them -/
@@ -149,6 +557,39 @@ theorem interpolatePolynom_val (hq : 0 < q) (parties : List Nat) (hp : GoodParti
       c.length = parties.length ∧
       (∀ k, k < c.length → 0 ≤ c.getD k 0 ∧ c.getD k 0 < q ∧
         ((c.getD k 0 : Int) : ZMod q.natAbs) = f.coeff k) := by
-  sorry
+  generalize ha : parties.map (fun (j : Nat) => ((j : Int) + 1)) = a
+  generalize hb : parties.map share = b
+  have hal : a.length = parties.length := by simp [← ha]
+  have hva : ∀ i (h : i < parties.length), va q a i = pt q parties[i] := by
+    intro i h
+    show ((getI a i : Int) : ZMod q.natAbs) = _
+    rw [← ha, getI_map _ _ _ h, pt_cast]
+  have hvb : ∀ i (h : i < parties.length), va q b i = f.eval (pt q parties[i]) := by
+    intro i h
+    show ((getI b i : Int) : ZMod q.natAbs) = _
+    rw [← hb, getI_map _ _ _ h, hs _ (List.getElem_mem h)]
+  have hv : Set.InjOn (va q a) (Finset.range parties.length : Set Nat) := by
+    intro i hi j hj h
+    have hi' : i < parties.length := by simpa using hi
+    have hj' : j < parties.length := by simpa using hj
+    rw [hva i hi', hva j hj'] at h
+    have := pt_inj hq (hp.small _ (List.getElem_mem hi')) (hp.small _ (List.getElem_mem hj')) h
+    exact (hp.nodup.getElem_inj_iff).mp this
+  obtain ⟨c, hc, hcl, hcb, hcv⟩ := interpGo_inv hq a b parties.length hv parties.length 0 a
+    (List.replicate parties.length 0) (by omega) hal (by simp)
+    (fun i => by rw [getI_replicate]; exact ⟨le_rfl, hq⟩)
+    (fun i => by rw [getI_replicate]; simp [PP])
+    (fun _ i hi => by omega) (fun _ => rfl)
+  have hPf : PP q a b parties.length = f := by
+    symm
+    apply Lagrange.eq_interpolate_of_eval_eq _ hv
+    · rw [Finset.card_range]; exact hf
+    · intro i hi
+      have hi' : i < parties.length := Finset.mem_range.mp hi
+      rw [hva i hi', hvb i hi']
+  refine ⟨c, ?_, hcl, ?_⟩
+  · unfold interpolatePolynom; rw [hal]; exact hc
+  · intro k hk
+    exact ⟨(hcb k).1, (hcb k).2, by rw [← hPf]; exact hcv k⟩
 
 end Tmcg.DkgL
